@@ -534,3 +534,75 @@ def scalar_row_fn(text):
 def scalar_row_unit(text):
     return ("use vstd::prelude::*;\nuse std::collections::HashMap;\nverus! {\nbroadcast use vstd::std_specs::hash::group_hash_axioms;\n"
             + SCALAR_ROW_MODEL + scalar_row_fn(text) + vlib.verus_canary("canary_scalar_row", "x: u64", []) + "\n} // verus!\nfn main() {}\n")
+
+
+# ---------------------------------------------------------------------------------------------------------------------
+# which columns are the common (key) columns
+COMMON_MODEL = """
+#[derive(Clone, Copy, PartialEq, Eq, Structural)]
+pub struct Name { pub id: u64 }
+impl Name { pub fn clone(&self) -> (r: Name) ensures r == *self, { *self } }
+// `col_names: HashMap<u64, String>` is iterated in SOME order: the model is the sequence of its (id, name) entries in that order
+pub struct MechTable { pub col_names: Vec<(u64, Name)>, pub id: u64 }
+// rhs.col_names.iter().map(|(id, name)| (name.clone(), *id)).collect::<HashMap<String, u64>>(): an index from a name to AN id that carries it.
+// ASSUMED (std HashMap / collect): `inv(entries, n)` is Some(id) only if (id, n) is an entry, and None only if no entry has the name n.
+pub uninterp spec fn inv(entries: Seq<(u64, Name)>, n: Name) -> Option<u64>;
+pub struct NameIndex { pub src: Ghost<Seq<(u64, Name)>> }
+#[verifier::external_body]
+pub fn invert_names(t: &MechTable) -> (r: NameIndex) ensures r.src@ == t.col_names@, { unimplemented!() }
+impl NameIndex {
+  #[verifier::external_body]
+  pub fn get(&self, n: &Name) -> (r: Option<&u64>)
+    ensures (match r { Some(id) => inv(self.src@, *n) == Some(*id), None => inv(self.src@, *n) is None }),
+  { unimplemented!() }
+}
+pub open spec fn has_first(s: Seq<(u64, u64)>, x: u64) -> bool { exists|k: int| 0 <= k < s.len() && (#[trigger] s[k]).0 == x }
+pub open spec fn has_second(s: Seq<(u64, u64)>, x: u64) -> bool { exists|k: int| 0 <= k < s.len() && (#[trigger] s[k]).1 == x }
+#[verifier::external_body]
+pub fn project_first(v: &Vec<(u64, u64)>) -> (r: HashSet<u64>) ensures forall|x: u64| r@.contains(x) <==> has_first(v@, x), { unimplemented!() }
+#[verifier::external_body]
+pub fn project_second(v: &Vec<(u64, u64)>) -> (r: HashSet<u64>) ensures forall|x: u64| r@.contains(x) <==> has_second(v@, x), { unimplemented!() }
+// ---- THE CONTRACT (C18: "rows are matched on the columns the two tables have in common"): the key columns are, for every lhs column whose
+// NAME also names an rhs column, the pair (that lhs column, the rhs column of that name) -- nothing else; `common_lhs` / `common_rhs` are
+// exactly the lhs / rhs members of those pairs
+pub open spec fn pairs(l: Seq<(u64, Name)>, r: Seq<(u64, Name)>, n: int) -> Seq<(u64, u64)> decreases n {
+  if n <= 0 { Seq::empty() } else {
+    match inv(r, l[n - 1].1) { Some(rid) => pairs(l, r, n - 1).push((l[n - 1].0, rid)), None => pairs(l, r, n - 1) }
+  }
+}
+"""
+
+
+def common_cols_fn(text):
+    """(G) `build_joined_table` from `let rhs_name_to_id` to (not including) `let mut output_cols`:
+      G1 `T.col_names.iter().map(|(id, name)| (name.clone(), *id)).collect()` -> `invert_names(T)` (type `HashMap<String, u64>` -> `NameIndex`)
+      G2 `for (lhs_id, lhs_name) in &lhs.col_names {` -> index loop over the entry sequence
+      G3 `common_cols.iter().map(|(_, X)| *X).collect()` -> `project_second(&common_cols)`, `.map(|(X, _)| *X)` -> `project_first(&common_cols)`"""
+    sig, body = extract_fn(text, "build_joined_table")
+    b0 = re.sub(r"//[^\n]*", "", body).replace("\r", "")
+    a = find_code(b0, r"let\s+rhs_name_to_id\b")
+    z = find_code(b0, r"let\s+mut\s+output_cols\s*:")
+    if not a or not z or z.start() < a.start():
+        raise AnchorLost("build_joined_table: `let rhs_name_to_id` .. `let mut output_cols` not found")
+    b = b0[a.start():z.start()]
+    b, n0 = re.subn(r"(\w+)\s*\.col_names\s*\.iter\(\)\s*\.map\(\s*\|\(\s*id\s*,\s*name\s*\)\|\s*\(\s*name\.clone\(\)\s*,\s*\*id\s*\)\s*\)\s*\.collect\(\)", r"invert_names(\1)", b)
+    b = b.replace("HashMap<String, u64>", "NameIndex").replace("vec![]", "Vec::new()")
+    b, n1 = re.subn(r"for\s+\(\s*lhs_id\s*,\s*lhs_name\s*\)\s+in\s+&lhs\.col_names\s*\{",
+                    "for c_ in 0..lhs.col_names.len()\n    invariant rhs_name_to_id.src@ == rhs.col_names@, common_cols@ =~= pairs(lhs.col_names@, rhs.col_names@, c_ as int),\n"
+                    "  {\n    let lhs_id = &lhs.col_names[c_].0; let lhs_name = &lhs.col_names[c_].1;\n    proof { reveal_with_fuel(pairs, 2); }", b)
+    b = re.sub(r"(\w+)\.iter\(\)\.map\(\s*\|\(\s*_\s*,\s*(\w+)\s*\)\|\s*\*\2\s*\)\.collect\(\)", r"project_second(&\1)", b)
+    b = re.sub(r"(\w+)\.iter\(\)\.map\(\s*\|\(\s*(\w+)\s*,\s*_\s*\)\|\s*\*\2\s*\)\.collect\(\)", r"project_first(&\1)", b)
+    if n0 != 1 or n1 != 1:
+        raise AnchorLost("build_joined_table: the name index / the loop over lhs.col_names not found")
+    if re.search(r"\b(iter\(\)|collect|map|HashMap|zip|filter)\b", b) or not re.search(r"\bcommon_rhs\b", b) or not re.search(r"\bcommon_lhs\b", b):
+        raise AnchorLost("build_joined_table: the common-column discovery is outside the transcription rules")
+    return ("fn common_columns(lhs: &MechTable, rhs: &MechTable) -> (res: (Vec<(u64, u64)>, HashSet<u64>, HashSet<u64>))\n"
+            "  ensures res.0@ =~= pairs(lhs.col_names@, rhs.col_names@, lhs.col_names@.len() as int),\n"
+            "    forall|x: u64| res.1@.contains(x) <==> has_first(res.0@, x),\n"
+            "    forall|x: u64| res.2@.contains(x) <==> has_second(res.0@, x),\n{\n"
+            + b + "\n  (common_cols, common_lhs, common_rhs)\n}\n")
+
+
+def common_unit(text):
+    return ("use vstd::prelude::*;\nuse std::collections::HashSet;\nverus! {\nbroadcast use vstd::std_specs::hash::group_hash_axioms;\n"
+            + COMMON_MODEL + common_cols_fn(text) + vlib.verus_canary("canary_c18_common", "x: u64", []) + "\n} // verus!\nfn main() {}\n")
